@@ -138,6 +138,29 @@ def pool(ctx, p):
         _check(ctx, S, orient, stub)
 
 
+@harness("C13.valuetypes")
+def valuetypes(ctx, p):
+    """Orientation values of other boolean/integer types (python bool, numpy bool,
+    numpy int): every assignment is a path; real numpy."""
+    N, M, edges = _shape(p["shape"])
+    conv = {"bool": bool, "np.bool_": np.bool_, "np.int64": np.int64}[p["vtype"]]
+    S = xgi.SimplicialComplex()
+    S.add_nodes_from(range(N))
+    orient = {}
+    for j in range(M):
+        S._edge[j + 3] = frozenset(edges[j])
+        S._edge_attr[j + 3] = {}
+        for n in edges[j]:
+            S._node[n].add(j + 3)
+        orient[j + 3] = conv(ctx.flag(f"o{j}"))
+    ctx.info["op"] = "boundary_matrix (orientation value type " + p["vtype"] + ")"
+    ctx.info["args"] = {"orientations": {k: int(v) for k, v in orient.items()}}
+    with warnings.catch_warnings():
+        warnings.simplefilter("ignore")
+        with stubs.uninstalled():
+            _check(ctx, S, orient, False)
+
+
 def spec(tier, seed):
     if tier == "quick":
         shp = [s for s in shapes.shapes_S_upto(4, (0,)) if s[1] > 0]
@@ -146,6 +169,10 @@ def spec(tier, seed):
         shp = [s for s in shapes.shapes_S_upto(4, (0, 1)) if s[1] > 0] + [full_simplex(5)]
         poolsh = [s for s in shapes.shapes_S_upto(4, (0,)) if s[1] > 0]
     units = [("C13.chain", {"shape": s}) for s in shp]
+    for s in shp:
+        if 4 <= s[1] <= (7 if tier == "quick" else 9) and max(len(e) for e in s[2]) >= 3:
+            for vt in ("bool", "np.bool_", "np.int64"):
+                units.append(("C13.valuetypes", {"shape": s, "vtype": vt}))
     for s in poolsh:
         units.append(("C13.pool", {"shape": s, "orient": False, "strids": False}))
         units.append(("C13.pool", {"shape": s, "orient": True, "strids": True}))
